@@ -28,6 +28,9 @@ func (r *Run) setup() error {
 					return fmt.Errorf("create bucket %s: %v", b, err)
 				}
 			} else if resp := r.quiet("PUT", target(b, "", nil)); !resp.OK() {
+				// the server refuses to create a bucket with a valid name in an
+				// empty store: that is its answer, not trouble of the harness
+				r.setViol("bucket.semantics", "creating a bucket with a valid name in an empty store fails "+r.bctx(), "200", resp.String())
 				return fmt.Errorf("create bucket %s: %s", b, resp.String())
 			}
 		}
